@@ -9,7 +9,7 @@ func isContext(t types.Type) bool {
 	}
 
 	o := named.Obj()
-	return o.Pkg().Path() == "context" && o.Name() == "Context"
+	return o.Pkg() != nil && o.Pkg().Path() == "context" && o.Name() == "Context"
 }
 
 func isError(t types.Type) bool {
